@@ -100,6 +100,38 @@ def run_case(case, ctx):
             elif kind == 'E':
                 objs[i] = edzed.Input(f"e{i}", initdef=0, on_output=edzed.Event(
                     '_ctrl', 'abort', efilter=edzed.not_from_undef))
+            elif kind == 'EC':
+                # the 'abort' control event is produced inside the simulation task:
+                # a combinational block's on_output event during an evaluation pass
+                inp = edzed.Input(f"eci{i}", initdef=0)
+                edzed.Not(f"e{i}", on_output=edzed.Event(
+                    '_ctrl', 'abort', efilter=edzed.not_from_undef)).connect(inp)
+                objs[i] = inp
+            elif kind == 'HC':
+                # a combinational block's function sends an event to a failing handler and
+                # swallows the exception: the error is delivered by abort() from inside the
+                # simulation task and must still terminate the simulation
+                class HP2(edzed.SBlock):
+                    def init_regular(self):
+                        self.set_output(0)
+
+                    def _event(self, etype, data, i=i):
+                        exc = SrcError(f"H{i}")
+                        excs[i] = exc
+                        fired.append(('H', i))
+                        raise exc
+                hp = HP2(f"hc{i}")
+                inp = edzed.Input(f"hci{i}", initdef=0)
+
+                def func(x, hp=hp):
+                    if x:
+                        try:
+                            hp.event('boom')
+                        except Exception:   # pylint: disable=broad-except
+                            pass
+                    return 0
+                edzed.FuncBlock(f"hcf{i}", func=func).connect(inp)
+                objs[i] = inp
             elif kind == 'Z':
                 objs[i] = edzed.Input(f"z{i}", initdef=0, on_output=edzed.Event(
                     '_ctrl', 'shutdown', efilter=edzed.not_from_undef))
@@ -151,6 +183,11 @@ def run_case(case, ctx):
             elif kind == 'E':
                 fired.append(('E', i))
                 edzed.ExtEvent(objs[i]).send(1)
+            elif kind == 'EC':
+                fired.append(('E', i))
+                edzed.ExtEvent(objs[i]).send(1)
+            elif kind == 'HC':
+                edzed.ExtEvent(objs[i]).send(1)
             elif kind == 'A':
                 exc = SrcError(f"A{i}")
                 excs[i] = exc
@@ -190,7 +227,7 @@ def run_case(case, ctx):
         def schedule(simtask_getter, runtask_getter):
             for i, (kind, t) in enumerate(actions):
                 when = t0 + t
-                if kind in ('H', 'C', 'E', 'A', 'Z', 'ZC'):
+                if kind in ('H', 'C', 'E', 'A', 'Z', 'ZC', 'EC', 'HC'):
                     loop.call_at(when, fire, i, kind, objs, circuit)
                 elif kind == 'X':
                     async def do_shutdown(i=i):
@@ -450,6 +487,12 @@ def gen(ctx):
     for a in kindsR + ['Z']:
         cases.append({'mode': 'R', 'actions': [['Z', 1], [a, 1]]})
         cases.append({'mode': 'R', 'actions': [[a, 1], ['Z', 2]]})
+    for inner in ('EC', 'HC'):
+        cases.append({'mode': 'R', 'actions': [[inner, 1]]})
+        cases.append({'mode': 'U', 'actions': [[inner, 1]]})
+        for a in kindsR:
+            cases.append({'mode': 'R', 'actions': [[inner, 1], [a, 2]]})
+            cases.append({'mode': 'R', 'actions': [[a, 1], [inner, 2]]})
     for a in kindsR:
         cases.append({'mode': 'R', 'actions': [[a, 1], [a, 1]]})
         cases.append({'mode': 'R', 'actions': [['B', 0], [a, 1]]})
